@@ -332,6 +332,110 @@ func be4(v uint32) []byte { return []byte{byte(v >> 24), byte(v >> 16), byte(v >
 // lease the server holds (its client id, hardware address, transaction, offered / leased address), so that every
 // branch of the handlers is reached through the byte decoder.
 func (g *rawGen) event() rawEv {
+	if g.c.Rnd.Intn(2) == 0 {
+		return g.clean()
+	}
+	return g.noisy()
+}
+
+// clean: a well-formed message of the kind a client in the chosen lease's state sends next (the server's happy
+// paths and their near misses: one field off), options in random order, spare capacity varied.
+func (g *rawGen) clean() rawEv {
+	c, r := g.c, g.c.Rnd
+	host := c11.U32(g.cfg.Host)
+	leases := g.w.H.VerifDump().Leases
+	mac := c11.Mac(r.Intn(4))
+	var cid []byte
+	xid := c.RandBytes(4)
+	state := 0
+	var offer, leased uint32
+	if len(leases) > 0 && r.Intn(5) != 0 {
+		l := leases[r.Intn(len(leases))]
+		mac, state = l.MAC, l.State
+		if !bytes.Equal(l.CID, l.MAC) {
+			cid = l.CID
+		}
+		if len(l.XID) == 4 {
+			xid = l.XID
+		}
+		if l.Offer.Is4() {
+			offer = c11.U32(l.Offer)
+		}
+		if l.IP.Is4() {
+			leased = c11.U32(l.IP)
+		}
+	} else if r.Intn(3) == 0 {
+		cid = append([]byte{1}, mac...)
+	}
+	var opts [][]byte
+	if cid != nil {
+		opts = append(opts, opt(61, cid...))
+	}
+	ci, src := uint32(0), uint32(0)
+	mt := byte(1)
+	switch {
+	case state == 1 && offer != 0 && r.Intn(4) != 0: // selecting
+		mt = 3
+		opts = append(opts, opt(50, be4(offer)...), opt(54, be4(host)...))
+	case state == 2 && leased != 0:
+		switch r.Intn(7) {
+		case 0: // renewing
+			mt, ci, src = 3, leased, leased
+		case 1: // rebinding
+			mt, ci, src = 3, leased, 0xffffffff
+		case 2: // init-reboot
+			mt = 3
+			opts = append(opts, opt(50, be4(leased)...))
+		case 3: // the same REQUEST again (duplicate selecting)
+			mt = 3
+			opts = append(opts, opt(50, be4(leased)...), opt(54, be4(host)...))
+		case 4:
+			mt = 4
+			opts = append(opts, opt(50, be4(leased)...), opt(54, be4(host)...))
+		case 5:
+			mt, ci, src = 7, leased, leased
+			opts = append(opts, opt(54, be4(host)...))
+		default:
+			xid = c.RandBytes(4) // a new DISCOVER of a client with a lease
+		}
+	default:
+		if r.Intn(3) == 0 {
+			xid = c.RandBytes(4)
+		}
+		if r.Intn(3) == 0 {
+			opts = append(opts, opt(50, be4(c11.U32(g.cfg.Home.Addr())+2+uint32(r.Intn(12)))...))
+		}
+	}
+	if r.Intn(8) == 0 { // what another DHCP server on the LAN answers the client: seen on the client port
+		smt := []byte{2, 2, 2, 5, 6}[r.Intn(5)]
+		sid := []uint32{c11.U32(g.cfg.Router), 0x08080808, host, 0}[r.Intn(4)]
+		so := [][]byte{opt(53, smt), opt(54, be4(sid)...), opt(51, 0, 0, 14, 16)}
+		if cid != nil && r.Intn(2) == 0 {
+			so = append(so, opt(61, cid...))
+		}
+		r.Shuffle(len(so), func(i, j int) { so[i], so[j] = so[j], so[i] })
+		yi := c11.U32(g.cfg.Home.Addr()) + 2 + uint32(r.Intn(12))
+		return rawEv{"s", c11.U32(g.cfg.Router), []int{0, 60, 1200}[r.Intn(3)], message(2, xid, 0, 0, yi, mac, so, true)}
+	}
+	opts = append(opts, opt(53, mt))
+	if r.Intn(2) == 0 {
+		opts = append(opts, opt(55, 1, 3, 6, 15, 121, 33))
+	}
+	if r.Intn(3) == 0 {
+		opts = append(opts, opt(12, []byte("host-"+strconv.Itoa(r.Intn(9)))...))
+	}
+	r.Shuffle(len(opts), func(i, j int) { opts[i], opts[j] = opts[j], opts[i] })
+	p := message(1, xid, uint16(r.Intn(2))<<15, ci, 0, mac, opts, true)
+	if r.Intn(2) == 0 && len(p) < 300 {
+		p = append(p, make([]byte, 300-len(p))...)
+	}
+	if r.Intn(6) == 0 { // near miss: one byte of the message off
+		p[[]int{4, 7, 12, 15, 28, 33, 240 + r.Intn(len(p)-240)}[r.Intn(7)]] ^= byte(1 + r.Intn(255))
+	}
+	return rawEv{"c", src, []int{0, 1, 9, 60, 1200, 1200}[r.Intn(6)], p}
+}
+
+func (g *rawGen) noisy() rawEv {
 	c, r := g.c, g.c.Rnd
 	host, router := c11.U32(g.cfg.Host), c11.U32(g.cfg.Router)
 	home := c11.U32(g.cfg.Home.Addr())
